@@ -5,7 +5,7 @@ set -u
 id=$1; shift; extra="$*"
 d=/verif/seeded/$id; w=/tmp/confirm_$id
 rm -rf $w; git -C /repo worktree add -q $w HEAD || exit 2
-cd $w
+cd $w; mkdir -p OUT
 [ -f $d/cflags ] && extra="$extra $(cat $d/cflags)"
 SRCS="src/bit_shift.c src/buffer.c src/copy.c src/core.c src/crc32c.c src/datatype.c src/ec.c src/log.c src/msg_ring_buffer.c src/raw.c src/reader.c src/statistics.c src/threaded_writer.c src/tmap.c src/track.c src/wr_fsr.c src/wr_ts.c src/writer.c src/backend_posix.c"
 build_demo() { 
